@@ -1,10 +1,12 @@
 package main
 
 import (
+	"bytes"
 	"fmt"
 	"os"
 	"path/filepath"
 	"strings"
+	"time"
 
 	"filippo.io/age/zverif/cli"
 	"filippo.io/age/zverif/keys"
@@ -220,5 +222,88 @@ func cliStage(r *mon.Run) {
 				}
 			}
 		}
+	}
+	cliPromptingPlugins(r, env, age, work, path)
+}
+
+// cliPromptingPlugins: the destination is a TERMINAL (standard output, -a or
+// -o -) and a plugin recipient prompts the user during its conversation,
+// before the list is refused (labels differ, or a later recipient fails). In
+// every arrangement of the standard streams — controlling terminal or none,
+// standard input and standard error terminals or pipes — not a single byte may
+// reach the destination terminal when the list is refused.
+func cliPromptingPlugins(r *mon.Run, env *plug.Env, age, work, path string) {
+	ask := plug.Step{Send: plug.Stanza("request-secret", nil, []byte("PIN?"))}
+	conf := plug.Step{Send: plug.Stanza("confirm", []string{refage.B64([]byte("yes")), refage.B64([]byte("no"))}, []byte("go on?"))}
+	rs := plug.Step{Send: plug.Stanza("recipient-stanza", []string{"0", "fake"}, []byte("0123456789abcdef0123456789abcdef"))}
+	lbl := plug.Step{Send: plug.Stanza("labels", []string{"postquantum"}, nil)}
+	perr := plug.Step{Send: plug.Stanza("error", []string{"internal"}, []byte("no token"))}
+	done := plug.Step{Send: plug.Stanza("done", nil, nil), NoReply: true}
+	scripts := map[string]*plug.Script{
+		"asks-then-labelled":     {Steps: []plug.Step{ask, rs, lbl, done}},
+		"confirms-then-labelled": {Steps: []plug.Step{conf, rs, lbl, done}},
+		"asks-then-fails":        {Steps: []plug.Step{ask, perr, done}},
+	}
+	xk := keys.NewX("X1")
+	n := 0
+	for sn, sc := range scripts {
+		env.Install("asker")
+		env.SetScript("asker", sc)
+		pub := refage.Bech32Encode("age1asker", []byte{1, 2, 3})
+		for _, order := range []string{"plugin,native", "native,plugin"} {
+			for _, ctty := range []bool{false, true} {
+				for _, streams := range []string{"stdin-pipe/stderr-pipe", "stdin-tty/stderr-pipe", "stdin-pipe/stderr-file"} {
+					argv := []string{age, "-a", "-r", pub, "-r", xk.PublicStr, "in"}
+					if order == "native,plugin" {
+						argv = []string{age, "-a", "-r", xk.PublicStr, "-r", pub, "in"}
+					}
+					c := &cli.Cmd{Argv: argv, Dir: work, Env: []string{path, "FAKEPLUGIN_DIR=" + env.Dir}, Stdout: "tty", Timeout: 60 * time.Second}
+					if ctty {
+						c.TTY = true
+					} else {
+						c.NoCTTY = true
+					}
+					if streams == "stdin-tty/stderr-pipe" {
+						c.StdinTTY = true
+					} else {
+						c.Stdin = []byte{}
+					}
+					// whatever prompt appears is answered (blindly too), so that the
+					// conversation goes on to the refusal
+					c.Script = []cli.TTYStep{{Expect: "PIN?", Send: "1234\n", Blind: 1200 * time.Millisecond}}
+					if sn == "confirms-then-labelled" {
+						c.Script = []cli.TTYStep{{Expect: "go on?", Send: "1\n", Blind: 1200 * time.Millisecond}}
+					}
+					res := cli.Run(c)
+					r.Eval(1)
+					desc := fmt.Sprintf("prompting plugin %s, %s, controlling terminal=%v, %s, destination = the terminal on standard output", sn, order, ctty, streams)
+					r.Distinct(desc)
+					if res.Err != nil {
+						r.Inconclusive("%s: driver error %v", desc, res.Err)
+						continue
+					}
+					replay := map[string]any{"case": desc, "argv": argv[1:]}
+					if res.Exit == 0 {
+						r.Violate("cli-accepted:prompting-plugin", desc+": the tool encrypted to a recipient list it must refuse", replay)
+						continue
+					}
+					// with a controlling terminal (or a terminal on standard input) the
+					// prompt legitimately appears on THAT terminal, which in this
+					// harness is the same pty as the destination: only the arrangement
+					// without any terminal to prompt on has a clean destination to judge
+					if !ctty && streams != "stdin-tty/stderr-pipe" {
+						if out := bytes.ReplaceAll(res.TTYOut, []byte("\r"), nil); len(out) != 0 {
+							r.Violate("cli-bytes-on-refusal:terminal-destination", fmt.Sprintf("%s: refused (exit %d) but %d bytes reached the destination terminal: %q", desc, res.Exit, len(out), mon.Trunc(out, 80)), replay)
+							continue
+						}
+						n++
+					}
+					r.Count("cli_prompting_plugin_refusals_checked", 1)
+				}
+			}
+		}
+	}
+	if n == 0 {
+		r.Inconclusive("no prompting-plugin refusal with a terminal destination and no terminal to prompt on was judged")
 	}
 }
